@@ -8,6 +8,11 @@ package proxy
 // knows about each entry (address bytes / prefix length / name) and decides "bypass" from the documented rules;
 // "is an IP literal" for free-form request hosts is decided by the standard library (netip.ParseAddr).
 //
+// VerifC53_zoned: same configuration family, the request is an IPv6 literal with a zone identifier whose text is
+// symbolic (so it can end in / equal a configured zone or host): IP literals are routed by the IP / network rules only.
+// Zone and host entries also come with numeric labels ("*.d.d", "*.d.d.d.d", "d.d.d.d."), whose text can coincide
+// with the tail or the whole of a dialed dotted quad: a dialed IP literal still never matches a name rule.
+//
 // Cost note: every fork while parsing the entry re-executes the request side, so the templates keep the *shape*
 // (digit counts, dot positions) concrete and the *contents* (digits, hex digits, letters, prefix length) symbolic.
 //
@@ -16,6 +21,8 @@ package proxy
 //   per_host.go  `if bypassIP.Equal(ip) {`          -> `if !bypassIP.Equal(ip) {`         caught
 //   per_host.go  `if !strings.HasPrefix(zone, ".")` -> `if strings.HasPrefix(zone, ".")`  caught (AddZone)
 //   per_host.go  `break` added after the first bypassNetworks entry                        caught (companions)
+//   per_host.go  `return p.def` at the end of the IP-literal branch removed (seed C53-C)   caught by both harnesses
+//                (route: numeric zone vs IPv4 literal; zoned: zone identifier text vs zone)
 
 import (
 	"net"
@@ -24,6 +31,7 @@ import (
 
 func init() {
 	vfRegister("VerifC53_route", VerifC53_route)
+	vfRegister("VerifC53_zoned", VerifC53_zoned)
 }
 
 type c53dialer struct {
@@ -118,12 +126,16 @@ func c53letter(label string) byte {
 	return c
 }
 
-// c53text instantiates a pattern: every 'x' becomes a symbolic letter, other bytes are literal.
+// c53text instantiates a pattern: every 'x' becomes a symbolic letter, every 'd' a symbolic decimal digit, other
+// bytes are literal.
 func c53text(label, pat string) string {
 	bs := []byte(pat)
 	for i := range bs {
-		if bs[i] == 'x' {
+		switch bs[i] {
+		case 'x':
 			bs[i] = c53letter(label)
+		case 'd':
+			bs[i] = c53digit(label)
 		}
 	}
 	return string(bs)
@@ -137,7 +149,7 @@ func c53entry(rich bool) (text string, direct bool, e c53ent) {
 		}
 		return vfChoice(label, k)
 	}
-	switch vfChoice("entrykind", 7) {
+	switch vfChoice("entrykind", 8) {
 	case 0: // IPv4 address
 		s, q := c53v4("e4", pick("e4shape", 2))
 		e = c53ent{kind: 1, fam: 4, plen: 32}
@@ -184,25 +196,31 @@ func c53entry(rich bool) (text string, direct bool, e c53ent) {
 		}
 		return string([]byte{c1, c2}) + "::/" + string(f), false, e
 	case 4: // zone "*.name"; a trailing dot is dropped; "*." alone is the root zone
-		sh := pick("zoneshape", 5)
-		nm := c53text("zone", []string{"xx", "xx.", "x.x", "x", ""}[sh])
+		// (numeric labels: a zone whose text is the tail, or the whole, of a dotted quad is still a *name* rule)
+		sh := pick("zoneshape", 8)
+		nm := c53text("zone", []string{"xx", "xx.", "x.x", "x", "", "d", "d.d", "d.d.d.d"}[sh])
 		ref := nm
 		if sh == 1 {
 			ref = nm[:2]
 		}
 		return "*." + nm, false, c53ent{kind: 2, name: ref}
 	case 5: // host name; a trailing dot is dropped; a leading dot is part of the name
-		sh := pick("hostshape", 5)
-		nm := c53text("host", []string{"xx", "xx.", "x.x", ".xx", "x"}[sh])
+		// ("d.d.d.d." is not an IP literal, so it is a host *name* rule for the name "d.d.d.d.", stored without the dot)
+		sh := pick("hostshape", 6)
+		nm := c53text("host", []string{"xx", "xx.", "x.x", ".xx", "x", "d.d.d.d."}[sh])
 		ref := nm
-		if sh == 1 {
-			ref = nm[:2]
+		if sh == 1 || sh == 5 {
+			ref = nm[:len(nm)-1]
 		}
 		return nm, false, c53ent{kind: 3, name: ref}
+	case 6: // IPv6 address with a zone identifier "hh::h%zone": the zone is not part of the added IP
+		s, b := c53v6("z6", 0)
+		zt := c53text("z6zone", []string{"xx", "x.x", ".xx"}[pick("z6zoneshape", 3)])
+		return s + "%" + zt, false, c53ent{kind: 1, fam: 6, plen: 128, b: b}
 	}
 	// direct AddZone(name): "A zone of "example.com" matches "example.com" and all of its subdomains"
-	sh := pick("dzoneshape", 4)
-	nm := c53text("dzone", []string{"xx", ".xx", "xx.", "x.x"}[sh])
+	sh := pick("dzoneshape", 5)
+	nm := c53text("dzone", []string{"xx", ".xx", "xx.", "x.x", "d.d"}[sh])
 	ref := nm
 	switch sh {
 	case 1:
@@ -256,19 +274,9 @@ func c53match(e c53ent, isIP bool, fam int, hb [16]byte, host string) bool {
 	return false
 }
 
-func VerifC53_route() {
-	def, byp := &c53dialer{}, &c53dialer{}
-	p := NewPerHost(def, byp)
-
-	// One symbolic entry, alone (every shape) or placed after / before a fixed list of concrete entries
-	// (basic shapes only): the loops over rules must neither stop early nor skip the last entry. Free-form request
-	// hosts (hostkind 0) are paired with the single symbolic entry of the basic shapes only.
-	hk := vfChoice("hostkind", 4)
-	place := 0
-	if hk != 0 {
-		place = vfChoice("place", 3)
-	}
-	rich := place == 0 && hk != 0
+// c53config feeds one symbolic entry, alone (place 0) or after (1) / before (2) a fixed list of concrete entries, to
+// the real AddFromString / AddZone and returns the reference view of the rules.
+func c53config(p *PerHost, rich bool, place int) []c53ent {
 	var ents []c53ent
 	text, direct, e := c53entry(rich)
 	ents = append(ents, e)
@@ -291,6 +299,77 @@ func VerifC53_route() {
 		cfg = " " + cfg + ", ,"
 	}
 	p.AddFromString(cfg)
+	return ents
+}
+
+// c53dial sends the request through the public Dial and checks the routing against the documented rules.
+func c53dial(p *PerHost, def, byp *c53dialer, ents []c53ent, isIP bool, fam int, hb [16]byte, host, addr string) {
+	want := false
+	for _, e := range ents {
+		want = vfOr(want, c53match(e, isIP, fam, hb, host))
+	}
+	_, err := p.Dial("tcp", addr)
+	vfAssert(err == nil, "Dial reaches a dialer")
+	vfAssert(def.calls+byp.calls == 1, "exactly one dialer receives the call")
+	got := byp.calls == 1
+	vfAssert((def.addr+byp.addr) == addr, "the address is passed on unchanged")
+	vfAssert(got == want, "bypass exactly when a documented rule matches")
+	vfObserveBool("bypass", got)
+	vfObserveStr("host", host)
+	if got {
+		vfReach("bypass")
+	} else {
+		vfReach("default")
+	}
+}
+
+// VerifC53_zoned: the dialed host is an IPv6 literal that carries a zone identifier ("[hh::h%zone]:80"). It is an IP
+// literal (net/netip.ParseAddr accepts it), so only the IP / network rules apply, to the address without the zone:
+// the text of the zone identifier - which may end in, or contain, an added zone or host name - never makes a name
+// rule match. The configuration is the same one-symbolic-entry family as in VerifC53_route.
+func VerifC53_zoned() {
+	def, byp := &c53dialer{}, &c53dialer{}
+	p := NewPerHost(def, byp)
+	place := vfChoice("place", 3)
+	ents := c53config(p, place == 0, place)
+
+	shape := vfChoice("h6shape", 3)
+	lit, hb := c53v6("h6", shape)
+	fam := 6
+	if shape == 2 {
+		fam = 4
+	}
+	// zone identifier texts: bare label, leading dot (the whole identifier is a zone suffix), label.label, trailing
+	// dot (root zone), numeric labels; the thorough tier adds more shapes
+	zpats := []string{".xx", "x.xx", "xx"}
+	if place == 0 {
+		zpats = []string{".xx", "x.xx", "xx", "x.", "d.d"}
+		if vfTier() > 0 {
+			zpats = append(zpats, "x.x", "x", "x.d.d.d.d", "xx.xx")
+		}
+	}
+	zt := c53text("hzone", zpats[vfChoice("hzoneshape", len(zpats))])
+	host := lit + "%" + zt
+	_, perr := netip.ParseAddr(host)
+	vfAssert(perr == nil, "a zoned IPv6 literal is an IP literal")
+	c53dial(p, def, byp, ents, true, fam, hb, host, "["+host+"]:80")
+	vfReach("end")
+}
+
+func VerifC53_route() {
+	def, byp := &c53dialer{}, &c53dialer{}
+	p := NewPerHost(def, byp)
+
+	// One symbolic entry, alone (every shape) or placed after / before a fixed list of concrete entries
+	// (basic shapes only): the loops over rules must neither stop early nor skip the last entry. Free-form request
+	// hosts (hostkind 0) are paired with the single symbolic entry of the basic shapes only.
+	hk := vfChoice("hostkind", 4)
+	place := 0
+	if hk != 0 {
+		place = vfChoice("place", 3)
+	}
+	rich := place == 0 && hk != 0
+	ents := c53config(p, rich, place)
 
 	// the request
 	var host string
@@ -356,7 +435,7 @@ func VerifC53_route() {
 		vfAssert(err == nil, "Dial reaches a dialer")
 		vfAssert(def.calls+byp.calls == 1, "exactly one dialer receives the call")
 		got = byp.calls == 1
-		vfAssert((def.addr + byp.addr) == addr, "the address is passed on unchanged")
+		vfAssert((def.addr+byp.addr) == addr, "the address is passed on unchanged")
 	} else {
 		got = p.dialerForRequest(host) == Dialer(byp)
 	}
